@@ -172,7 +172,7 @@ def gen_sds(r):
         ds.append(d)
     pre = r.choice([0, 0, 1, 2]) if w != "nc" else 0
     edits = sorted(r.sample(range(n), r.randrange(1, n + 1))) if (w == "sd" and r.random() < 0.5) else []
-    return {"kind": "sds", "w": w, "pre": pre, "edits": edits, "pad": gen_pad(r), "objs": ds}
+    return {"kind": "sds", "w": w, "pre": pre, "edits": edits, "pad": gen_pad(r) | (r.choice([0, 1]) << 15), "objs": ds}
 
 
 def gen_img(r):
@@ -213,7 +213,7 @@ def gen_img(r):
                 b["pal"] = a["pal"]
             if r.random() < 0.5 and a["nc"] == 3 and b["nc"] == 3:
                 b["il"] = a["il"]
-    return {"kind": "img", "w": w, "pre": pre, "edits": edits, "pad": (gen_pad(r) & 15) | lazy, "ril": r.choice([-1, 0, 1, 2]), "objs": ims}
+    return {"kind": "img", "w": w, "pre": pre, "edits": edits, "pad": (gen_pad(r) & 15) | lazy | (r.choice([0, 1]) << 15), "ril": r.choice([-1, 0, 1, 2]), "objs": ims}
 
 
 def gen_rawsds(r):
@@ -358,7 +358,7 @@ def gen_ann(r):
         else:
             txt = [r.randrange(256) for _ in range(ln)]
         objs.append({"ty": ty, "tag": tag, "ref": ref, "txt": txt})
-    return {"kind": "ann", "w": w, "objs": objs}
+    return {"kind": "ann", "w": w, "decoy": r.choice([0, 1, 1]), "objs": objs}
 
 
 def meta_tok(d):
@@ -415,7 +415,7 @@ def emit(cid, c):
     if k == "pal":
         return "%s pal %d %s" % (cid, len(c["objs"]), " ".join(hexs(p) for p in c["objs"]))
     if k == "ann":
-        t = ["%s ann %s %d" % (cid, c["w"], len(c["objs"]))]
+        t = ["%s ann %s %d %d" % (cid, c["w"], c.get("decoy", 0), len(c["objs"]))]
         for a in c["objs"]:
             t.append("%s %d %d %s" % (a["ty"], a["tag"], a["ref"], hexs(a["txt"])))
         return " ".join(t)
@@ -489,12 +489,13 @@ def parse_case(line):
         return cid, {"kind": "pal", "objs": [list(bytes.fromhex(nx())) for _ in range(n)]}
     if k == "ann":
         w = nx()
+        dec = int(nx())
         n = int(nx())
         objs = []
         for _ in range(n):
             ty, tag, ref, h = nx(), int(nx()), int(nx()), nx()
             objs.append({"ty": ty, "tag": tag, "ref": ref, "txt": list(bytes.fromhex(h)) if h != "-" else []})
-        return cid, {"kind": "ann", "w": w, "objs": objs}
+        return cid, {"kind": "ann", "w": w, "decoy": dec, "objs": objs}
     if k == "legacy":
         return cid, {"kind": "legacy", "path": nx()}
     if k == "dfsdseq":
@@ -569,7 +570,7 @@ def run_cases(ctx, cases, tag):
         for cid, c in cases:
             fh.write((cid + " " + rawline[cid] if cid in rawline else emit(cid, c)) + "\n")
     rc, R = vc.run_lines(exe, ph, timeout=1500, args=[wd])
-    noise = [l for l in R if not re.match(r"^\S+ (w|rec|end|crash|dfsd|sd|sdn|nc|vg|vgi|dfr8|df24|gr|grr|dfp|dfan|an|legacy|dfsdmeta|sdmeta|dfsdp|dfr8p) ", l + " ")]
+    noise = [l for l in R if not re.match(r"^\S+ (w|rec|end|crash|dfsd|sd|sdn|nc|vg|vgi|dfr8|df24|gr|grr|dfp|dfan|an|legacy|dfsdmeta|sdmeta|dfsdp|dfr8p|df24s|dfr8s) ", l + " ")]
     Rd = by_case([l for l in R if l not in noise])
     Sd = by_case(S)
     # phase 2: the record models read the element dump of every file the library wrote
@@ -588,7 +589,7 @@ def run_cases(ctx, cases, tag):
     return Rd, Sd, Md, noise
 
 
-VIEWS = ("dfsd", "sd", "sdn", "nc", "vg", "vgi", "dfr8", "df24", "gr", "grr", "dfp", "dfan", "an", "dfsdmeta", "sdmeta", "dfsdp", "dfr8p")
+VIEWS = ("dfsd", "sd", "sdn", "nc", "vg", "vgi", "dfr8", "df24", "gr", "grr", "dfp", "dfan", "an", "dfsdmeta", "sdmeta", "dfsdp", "dfr8p", "df24s", "dfr8s")
 
 
 def observed(lines):
